@@ -53,6 +53,19 @@ def gen_cases(tier, seed, ctx):
             # repeated run of the same op line (run-to-run variation)
             if dn in ('text', 'mid'):
                 add(None, cs, WG.segmentations(rnd, data)[0][1], kind='repeat-run', group=(cname, dn), seg='one-write-again', size=len(data))
+    # a boundary a few bytes behind the automatic minimum size, with write calls that end just below that size (a chunker that
+    # stops looking at bytes "that cannot end a chunk anyway" loses the rolling window there)
+    for k in range(2 if tier == 'quick' else 8):
+        data, first = WG.content_with_boundary_near_min(rnd)
+        if data is None: continue
+        for cname, cfg in cfgs[:2]:
+            cs = WG.cfg_str(**cfg)
+            segs = WG.segmentations(rnd, data)
+            for cut in (8190, 8192 - 30, 8191, 4096):
+                segs.append(('cut-%d' % cut, 'w' + data[:cut].hex() + '|w' + data[cut:].hex()))
+            segs.append(('8190-then-bytes', 'w' + data[:8190].hex() + '|' + '|'.join('w%02x' % b for b in data[8190:8300]) + '|w' + data[8300:].hex()))
+            for sname, ops in segs:
+                add(None, cs, ops, kind='segmentation', group=(cname, 'nearmin%d' % k), seg=sname, size=len(data), first=first)
     # edits: per-chunk lists compared as the property states
     for cname, cfg in cfgs[:4] if tier == 'quick' else cfgs:
         cs = WG.cfg_str(**cfg)
@@ -127,7 +140,8 @@ def nontrivial(r):
 def run(tier, seed, replay=None):
     rule = ("WRITE through the real zck_write/zck_end_chunk/zck_close: contents (text, random, zeros, repetitive, 40 kB, small, 1 byte, empty) x "
             "configurations (none/zstd, dictionary, uncompressed-source flag, chunk min/max incl. values that used to hang) x segmentations "
-            "(one write, 1-byte writes, 20 random cuts, 32 KiB and 4099-byte blocks, a repeated run): files of one group must be "
+            "(one write, 1-byte writes, 20 random cuts, 32 KiB and 4099-byte blocks, a repeated run; plus contents constructed so that a boundary "
+            "lies 1..40 bytes behind the automatic minimum size, written with calls ending just below that size): files of one group must be "
             "byte-identical; chunk sizes are compared with the Lean chunker model; edits (insert/delete/replace at 2/35/70/97 %, append, "
             "prepend): per-chunk (digest, stored size, size) lists compared for prefix locality and suffix resynchronisation")
     return E.standard_run(PROP, MODULES, gen_cases, tier, seed, replay, ASSUMPTIONS, rule, nontrivial=nontrivial, timeout_s=15,
